@@ -359,6 +359,11 @@ def glexindex_membership(cfg: Dict, timeout_s: int = 60) -> Dict:
     else:
         norm = norm_lo = norm_hi = _n(ct)
     t0 = time.time()
+    carrier = cfg.get("carrier")
+    if carrier:
+        # the same numbers handed over as numpy scalars / arrays of a narrow or unsigned integer type
+        _c = lambda v: numpy.array(v, dtype=carrier) if isinstance(v, list) else numpy.dtype(carrier).type(v)
+        start, stop = _c(start), _c(stop)
     try:
         if cfg.get("via") == "bindex":
             ordering = ("G" if graded else "") + ("" if reverse else "R")
@@ -540,7 +545,8 @@ def gen_cases(tier: str, seed: int) -> List[Dict]:
     pairs = [{"start": st, "stop": sp, "dimensions": d, "cross_truncation": list(ct), "graded": g, "reverse": r, "via": "glexindex"}
              for ct in ((1, 2), (1, "inf"), (0.5, 1), (2, "inf"), (0, "inf"), (0, 1)) for d in (2, 3, 4) for st, sp in ((1, 4), (2, 5), (0, 4)) for g, r in ((True, False), (False, True))]
     rng.shuffle(pairs)
-    take = sphere[: (6 if quick else len(sphere))] + pairs[: (14 if quick else len(pairs))] + cfgs[: 120 if quick else len(cfgs)]
+    carriers = [dict(c_, carrier=cr) for cr in ("uint32", "uint8", "int8", "uint64", "int64") for c_ in rng.sample(cfgs, 3 if quick else 12)]
+    take = sphere[: (6 if quick else len(sphere))] + carriers + pairs[: (14 if quick else len(pairs))] + cfgs[: 120 if quick else len(cfgs)]
     # sequences in one process: the same numbers split differently between start and stop, and the same bounds under
     # different norms / sort flags (a result must not depend on earlier calls)
     seqs = [
